@@ -183,7 +183,7 @@ func c18Knowledge(c *Ctx) {
 						// handed to the entry constructor in its originalDeadline position
 						if sig, isSig := info.TypeOf(cl.Fun).(*types.Signature); isSig {
 							for i, a := range cl.Args {
-								if vid, isV := ast.Unparen(a).(*ast.Ident); isV && info.ObjectOf(vid) == obj && i < sig.Params().Len() && strings.EqualFold(sig.Params().At(i).Name(), "originalDeadline") && cl.Fun != nil && !strings.HasSuffix(core.ExprStr(cl.Fun), "rememberDnsKnowledge") {
+								if vid, isV := ast.Unparen(a).(*ast.Ident); isV && info.ObjectOf(vid) == obj && i < sig.Params().Len() && strings.EqualFold(core.CanonName(sig.Params().At(i)), "originalDeadline") && cl.Fun != nil && !strings.HasSuffix(core.ExprStr(cl.Fun), "rememberDnsKnowledge") {
 									ok = true
 								}
 							}
@@ -420,7 +420,7 @@ func c08Round2(c *Ctx) {
 			}
 			if sig, ok := info.TypeOf(call.Fun).(*types.Signature); ok {
 				for i, a := range call.Args {
-					if i < sig.Params().Len() && sig.Params().At(i).Name() == "deadline" && strings.HasSuffix(core.ExprStr(call.Fun), "newCache") {
+					if i < sig.Params().Len() && core.CanonName(sig.Params().At(i)) == "deadline" && strings.HasSuffix(core.ExprStr(call.Fun), "newCache") {
 						if id, ok := ast.Unparen(a).(*ast.Ident); ok {
 							entryDeadline = info.ObjectOf(id)
 						}
